@@ -2,6 +2,7 @@ package main
 
 import (
 	"errors"
+	"fmt"
 	"net"
 	"net/netip"
 	"runtime"
@@ -48,6 +49,7 @@ type fakeConn struct {
 	permits      chan struct{}
 	waiting      atomic.Int32
 	closePartial atomic.Bool
+	closeMode    atomic.Int32 // what WriteBatch returns at / after Close, see closeResult
 
 	writes, partials, werrs, written atomic.Int64
 	maxBatch                         atomic.Int64
@@ -128,7 +130,12 @@ func (c *fakeConn) WriteBatch(msgs conn.Messages, _ int) (int, error) {
 		c.maxBatch.Store(int64(n))
 	}
 	byClose := false
-	if c.gated.Load() {
+	select {
+	case <-c.closed:
+		byClose = true // called after the socket was closed
+	default:
+	}
+	if !byClose && c.gated.Load() {
 		c.waiting.Add(1)
 		select {
 		case <-c.permits:
@@ -154,11 +161,10 @@ func (c *fakeConn) WriteBatch(msgs conn.Messages, _ int) (int, error) {
 	if n == 0 {
 		return 0, nil
 	}
-	if byClose && c.closePartial.Load() && n >= 2 {
-		c.partials.Add(1)
-		k := c.wrng.Intn(n - 1) // leaves at least one packet after the dropped one
-		c.written.Add(int64(k))
-		return k, nil
+	if byClose {
+		if k, err, ok := c.closeResult(n); ok {
+			return k, err
+		}
 	}
 	r := c.wrng.Intn(100)
 	switch {
@@ -173,6 +179,35 @@ func (c *fakeConn) WriteBatch(msgs conn.Messages, _ int) (int, error) {
 	}
 	c.written.Add(int64(n))
 	return n, nil
+}
+
+// closeResult is what a write on a socket that is (being) closed returns, by closeMode:
+// 0 nothing special, 1 a partial count (needs closePartial and n >= 2), 2 (-1, net.ErrClosed),
+// 3 (-1, *net.OpError wrapping net.ErrClosed), 4 (-1, fmt-wrapped net.ErrClosed),
+// 5 (-1, some other error).
+func (c *fakeConn) closeResult(n int) (int, error, bool) {
+	switch c.closeMode.Load() {
+	case 1:
+		if c.closePartial.Load() && n >= 2 {
+			c.partials.Add(1)
+			k := c.wrng.Intn(n - 1) // leaves at least one packet after the dropped one
+			c.written.Add(int64(k))
+			return k, nil, true
+		}
+	case 2:
+		c.werrs.Add(1)
+		return -1, net.ErrClosed, true
+	case 3:
+		c.werrs.Add(1)
+		return -1, &net.OpError{Op: "write", Net: "udp", Err: net.ErrClosed}, true
+	case 4:
+		c.werrs.Add(1)
+		return -1, fmt.Errorf("sendmmsg: %w", net.ErrClosed), true
+	case 5:
+		c.werrs.Add(1)
+		return -1, errFault, true
+	}
+	return 0, nil, false
 }
 
 func (c *fakeConn) Close() error {
